@@ -15,8 +15,8 @@ def isSpaceC (c : UInt8) : Bool := Gen.CcDirectives.spaceChars.contains c
 /-- `xisdigit` -/
 def isDigitC (c : UInt8) : Bool := Gen.CcDirectives.digitChars.contains c
 
-/-- `delim[2]` with `del = ','`: `" ,,\t\r\n"` — what `strspn` skips before an item -/
-def isLeadDelim (c : UInt8) : Bool := c = 32 || c = 44 || c = 9 || c = 13 || c = 10
+/-- `delim[2]` with `del = ','` (regenerated from src/StrList.cc; `" ,,\t\r\n\v\f"`): what `strspn` skips before an item -/
+def isLeadDelim (c : UInt8) : Bool := Gen.CcDirectives.leadDelims.contains c
 
 /-- the `do … while (**pos)` loop: number of octets from the item's start to the delimiter that ends it.
 `quoted` is the C variable; `esc` = "the previous octet was a backslash inside quotes" (the `*pos += 1; if (**pos) *pos += 1` step).
